@@ -896,3 +896,241 @@ pub fn run_reload_blocked(r: &mut Rng, n: usize, out: &mut Out) {
         let _ = std::fs::remove_dir_all(&dir);
     }
 }
+
+// ---------------------------------------------------------------------------------------------
+// forwarding mode on the real binary: command-line glue, sockets, the forwarder's address
+
+struct MockUpstream {
+    log: Arc<Mutex<Vec<(DomainName, u16, bool)>>>,
+    stop: Arc<std::sync::atomic::AtomicBool>,
+}
+
+impl Drop for MockUpstream {
+    fn drop(&mut self) {
+        self.stop.store(true, std::sync::atomic::Ordering::SeqCst);
+    }
+}
+
+/// a UDP "forwarder" on 127.0.0.1:port answering from `table` (NXDOMAIN otherwise); with `table = None`
+/// a decoy that only records what reaches it
+fn start_mock(port: u16, table: Option<Vec<(DomainName, Vec<ResourceRecord>)>>) -> Option<MockUpstream> {
+    let sock = UdpSocket::bind(("127.0.0.1", port)).ok()?;
+    sock.set_read_timeout(Some(Duration::from_millis(50))).ok()?;
+    let log = Arc::new(Mutex::new(Vec::new()));
+    let stop = Arc::new(std::sync::atomic::AtomicBool::new(false));
+    {
+        let (log, stop) = (log.clone(), stop.clone());
+        std::thread::spawn(move || {
+            let mut buf = vec![0u8; 4096];
+            while !stop.load(std::sync::atomic::Ordering::SeqCst) {
+                let Ok((n, peer)) = sock.recv_from(&mut buf) else { continue };
+                let Ok(q) = Message::from_octets(&buf[..n]) else { continue };
+                let Some(question) = q.questions.first().cloned() else { continue };
+                log.lock().unwrap().push((question.name.clone(), u16::from(question.qtype), q.header.recursion_desired));
+                let Some(table) = &table else { continue };
+                let mut resp = q.make_response();
+                resp.header.recursion_available = true;
+                match table.iter().find(|(n, _)| *n == question.name) {
+                    Some((_, rrs)) => {
+                        resp.answers = rrs
+                            .iter()
+                            .filter(|rr| {
+                                rr.rtype_with_data.rtype().matches(question.qtype)
+                                    || matches!(rr.rtype_with_data, RecordTypeWithData::CNAME { .. })
+                                    || rr.name != question.name
+                            })
+                            .cloned()
+                            .collect();
+                    }
+                    None => resp.header.rcode = Rcode::NameError,
+                }
+                if let Ok(bytes) = resp.to_octets() {
+                    let _ = sock.send_to(&bytes, peer);
+                }
+            }
+        });
+    }
+    Some(MockUpstream { log, stop })
+}
+
+fn fwd_name(s: &str) -> DomainName {
+    DomainName::from_dotted_string(s).unwrap()
+}
+
+fn a_rr(name: &DomainName, last: u8, ttl: u32) -> ResourceRecord {
+    ResourceRecord {
+        name: name.clone(),
+        rtype_with_data: RecordTypeWithData::A { address: std::net::Ipv4Addr::new(203, 0, 113, last) },
+        rclass: RecordClass::IN,
+        ttl,
+    }
+}
+
+fn reply_a_addrs(reply: &Message) -> Vec<std::net::Ipv4Addr> {
+    let mut v: Vec<_> = reply
+        .answers
+        .iter()
+        .filter_map(|rr| match &rr.rtype_with_data {
+            RecordTypeWithData::A { address } => Some(*address),
+            _ => None,
+        })
+        .collect();
+    v.sort();
+    v
+}
+
+/// C18 / C01 / C09 on the real binary in forwarding mode: every upstream query goes to the configured
+/// forwarder (never to another port or address), only for questions local data cannot answer and only
+/// when recursion is desired, and the forwarder's answer is what the client gets
+pub fn run_forward(r: &mut Rng, n: usize, out: &mut Out) {
+    let mut done = 0;
+    while done < n {
+        let dir = scratch("fwd");
+        let (fport, uport) = (free_port(), free_port());
+        // forwarder data
+        let names: Vec<DomainName> = (0..4).map(|i| fwd_name(&format!("f{i}.ext."))).collect();
+        let mut table: Vec<(DomainName, Vec<ResourceRecord>)> =
+            names.iter().enumerate().map(|(i, n)| (n.clone(), vec![a_rr(n, 10 + i as u8, 300)])).collect();
+        let alias = fwd_name("alias.ext.");
+        table.push((
+            alias.clone(),
+            vec![
+                ResourceRecord { name: alias.clone(), rtype_with_data: RecordTypeWithData::CNAME { cname: names[0].clone() }, rclass: RecordClass::IN, ttl: 300 },
+                a_rr(&names[0], 10, 300),
+            ],
+        ));
+        // the forwarder also has (wrong) data for names that are local: it must never be asked
+        let local_host = fwd_name("h0.lan.");
+        let blocked = fwd_name("blocked.ext.");
+        table.push((local_host.clone(), vec![a_rr(&local_host, 66, 300)]));
+        table.push((blocked.clone(), vec![a_rr(&blocked, 67, 300)]));
+        let Some(fwd) = start_mock(fport, Some(table)) else { continue };
+        let Some(decoy) = start_mock(uport, None) else { continue };
+        std::fs::write(
+            dir.join("lan.zone"),
+            "$ORIGIN lan.\n@ 300 IN SOA ns.lan. admin.lan. 1 2 3 4 300\n@ 300 IN NS ns\nns 300 IN A 10.0.0.1\nh0 300 IN A 10.0.0.10\n",
+        )
+        .unwrap();
+        std::fs::write(dir.join("hosts"), "0.0.0.0 blocked.ext\n").unwrap();
+        let pm = *r.pick(&["only-v4", "prefer-v4", "prefer-v6", "only-v6"]);
+        let args: Vec<String> = vec![
+            "--forward-address".into(),
+            format!("127.0.0.1:{fport}"),
+            "--upstream-dns-port".into(),
+            uport.to_string(),
+            "-p".into(),
+            pm.into(),
+            "-z".into(),
+            dir.join("lan.zone").to_string_lossy().into_owned(),
+            "-a".into(),
+            dir.join("hosts").to_string_lossy().into_owned(),
+        ];
+        let Some(server) = Server::start(&args) else {
+            out.case(&["server.start", "fwd"], "failed");
+            done += 1;
+            continue;
+        };
+        let mut answered: Vec<DomainName> = Vec::new(); // ext names already answered positively (cached)
+        let batch = r.range(10, 30).min(n.saturating_sub(done)).max(1);
+        for _ in 0..batch {
+            let class = r.below(10);
+            let (qname, kind) = match class {
+                0 | 1 => (local_host.clone(), "local"),
+                2 => (fwd_name("missing.lan."), "local-missing"),
+                3 => (blocked.clone(), "hosts"),
+                4 => (alias.clone(), "ext-alias"),
+                5 => (fwd_name("nx.ext."), "ext-unknown"),
+                _ => (r.pick(&names).clone(), "ext"),
+            };
+            let rd = !r.chance(1, 4);
+            let mut q = Message::from_question(
+                r.next_u64() as u16,
+                Question { name: qname.clone(), qtype: QueryType::Record(RecordType::A), qclass: QueryClass::Record(RecordClass::IN) },
+            );
+            q.header.recursion_desired = rd;
+            let before = fwd.log.lock().unwrap().len();
+            let reply = server.udp_once(&q.to_octets().unwrap(), Duration::from_secs(8));
+            std::thread::sleep(Duration::from_millis(5));
+            let asked: Vec<(DomainName, u16, bool)> = fwd.log.lock().unwrap()[before..].to_vec();
+            let mut v: Vec<String> = Vec::new();
+            if !decoy.log.lock().unwrap().is_empty() {
+                v.push("fail:C18:contacted-other-than-forwarder".into());
+                decoy.log.lock().unwrap().clear();
+            }
+            let parsed = reply.as_ref().and_then(|b| Message::from_octets(b).ok());
+            match &parsed {
+                None => v.push("fail:C09:no-reply-to-a-query".into()),
+                Some(m) => {
+                    if !m.header.recursion_available {
+                        v.push("fail:C09:ra-iff-recursion-offered".into());
+                    }
+                    let addrs = reply_a_addrs(m);
+                    let want = |last: u8| vec![std::net::Ipv4Addr::new(203, 0, 113, last)];
+                    match kind {
+                        "local" => {
+                            if !asked.is_empty() {
+                                v.push("fail:C01:local-name-forwarded".into());
+                            }
+                            if addrs != vec![std::net::Ipv4Addr::new(10, 0, 0, 10)] || !m.header.is_authoritative {
+                                v.push("fail:C01:local-answer-not-from-zone".into());
+                            }
+                        }
+                        "local-missing" => {
+                            if !asked.is_empty() {
+                                v.push("fail:C01:local-name-forwarded".into());
+                            }
+                            if m.header.rcode != Rcode::NameError || !m.answers.is_empty() {
+                                v.push("fail:C01:missing-local-name-not-nxdomain".into());
+                            }
+                        }
+                        "hosts" => {
+                            if !asked.is_empty() {
+                                v.push("fail:C01:local-name-forwarded".into());
+                            }
+                            if addrs != vec![std::net::Ipv4Addr::new(0, 0, 0, 0)] {
+                                v.push("fail:C01:hosts-override-not-used".into());
+                            }
+                        }
+                        _ => {
+                            // a question local data cannot answer
+                            if asked.iter().any(|(n, _, _)| *n != qname && !(kind == "ext-alias" && *n == names[0])) {
+                                v.push("fail:C18:forwarder-asked-something-else".into());
+                            }
+                            if asked.iter().any(|(_, _, rdf)| !*rdf) {
+                                v.push("fail:C18:forwarded-query-without-rd".into());
+                            }
+                            let cached = answered.contains(&qname);
+                            if !rd && !asked.is_empty() {
+                                v.push("fail:C09:recursion-without-rd".into());
+                            }
+                            if rd && kind != "ext-unknown" {
+                                let idx = if kind == "ext-alias" { 0 } else { names.iter().position(|x| *x == qname).unwrap() };
+                                if addrs != want(10 + idx as u8) {
+                                    v.push(if asked.is_empty() && !cached { "fail:C18:forwarder-not-contacted".into() } else { "fail:C18:forwarders-answer-not-returned".into() });
+                                } else if !answered.contains(&qname) {
+                                    answered.push(qname.clone());
+                                }
+                            }
+                            if rd && kind == "ext-unknown" && !m.answers.is_empty() {
+                                v.push("fail:C08:record-from-nowhere".into());
+                            }
+                        }
+                    }
+                }
+            }
+            let verdict = if v.is_empty() { "ok".to_string() } else { v.join(",") };
+            out.case(
+                &["server.fwd", pm, &format!("{}|{}", c::name(&qname), if rd { 1 } else { 0 }), kind],
+                &format!("{verdict} asked={} reply={}", asked.len(), reply.as_ref().map_or("-".into(), |b| c::hex(b))),
+            );
+            done += 1;
+        }
+        let alive = server.alive();
+        out.case(&["server.alive", "fwd"], if alive { "alive" } else { "dead" });
+        done += 1;
+        drop(server);
+        drop(fwd);
+        drop(decoy);
+        let _ = std::fs::remove_dir_all(&dir);
+    }
+}
